@@ -87,6 +87,18 @@ pub fn demote_codes(line: &str) -> String {
     if codes.is_empty() { main } else { format!("{main} | {}", codes.join(",")) }
 }
 
+/// Bytes placed at a chosen offset (0..=7) from an 8-aligned address.
+pub struct Placed { buf: Vec<u64>, off: usize, len: usize }
+impl Placed {
+    pub fn new(data: &[u8], off: usize) -> Placed {
+        let mut buf = vec![0u64; (data.len() + off) / 8 + 2];
+        let bytes: &mut [u8] = bytemuck::cast_slice_mut(&mut buf[..]);
+        bytes[off..off + data.len()].copy_from_slice(data);
+        Placed { buf, off, len: data.len() }
+    }
+    pub fn get(&self) -> &[u8] { &bytemuck::cast_slice::<u64, u8>(&self.buf[..])[self.off..self.off + self.len] }
+}
+
 pub fn silence_panics() {
     if std::env::var("VERIF_SHOW_PANICS").is_ok() {
         return;
